@@ -103,7 +103,7 @@ func runC12(ctx *Ctx) {
 		maxQ = 4000
 	}
 	r.Rule = fmt.Sprintf("PDU SESSION ESTABLISHMENT ACCEPT built by hand per TS 24.501 8.3.2.1 inside a protected DL NAS TRANSPORT: QoS-rules length every value 0..%d; all 2^9 subsets of the optional IEs in table order (cause, RQ timer, S-NSSAI, always-on, mapped EPS, EAP, QoS flow descriptions, ePCO, DNN) with the PDU address present; IE lengths {min..max alphabets}; 6 addresses (incl. octets equal to IEIs 29 59 8b 7b 22 25 79 75); cause values, AMBR units, PSI/PTI; "+
-		"setup-request transfers encoded by the independent refper: with/without aggregate maximum bit rate, bit rates {0, 2^k-1, 2^k, 4e12} for all k<=42, TEID/UPF alphabets, 1..3 QoS flows, optional IEs of the transfer; termination: every octet string of length <=4 over 12 symbols as the optional-IE part, every prefix and every single-octet substitution of 3 valid messages (both extractors), in shard processes under a %v watchdog; "+
+		"setup-request transfers encoded by the independent refper: with/without aggregate maximum bit rate, bit rates {0, 2^k-1, 2^k, 4e12} for all k<=42 plus values whose octets spell an IE header of the transfer (00 8b 00 ...), TEID/UPF alphabets, 1..3 QoS flows, optional IEs of the transfer; termination: every octet string of length <=4 over 12 symbols as the optional-IE part, every prefix and every single-octet substitution of 3 valid messages (both extractors), in shard processes under a %v watchdog; "+
 		"oracle: returned address/TEID/UPF == encoded ones; the call returns or panics (a panic on a malformed input is termination); distinct = distinct inputs", maxQ, 10*time.Second)
 	r.Assume("the Accept layout is typed from TS 24.501 8.3.2.1 (Release 15 IEIs)", "panics on malformed input count as termination for this property (C14/C19 cover crash behaviour)")
 	if !ctx.IsChild() {
@@ -283,6 +283,11 @@ func runC12(ctx *Ctx) {
 	rates := []int64{0, 4000000000000}
 	for k := uint(0); k <= 42; k++ {
 		rates = append(rates, 1<<k-1, 1<<k)
+	}
+	// values whose octets look like the header of an information element of the transfer (id 139 = 0x8b, 130, 134, 136, 129
+	// followed by a criticality octet): anything that finds the tunnel IE by searching instead of walking the list sees these first
+	for _, id := range []int64{0x8b, 0x82, 0x86, 0x88, 0x81} {
+		rates = append(rates, id, id<<8, id<<16, id<<24, id<<8|0x01000000, id<<24|0x010000000a00, id<<16|id, id<<32|0x0a)
 	}
 	for _, rt := range rates {
 		if rt > 4000000000000 {
